@@ -104,6 +104,27 @@ where
         }
         fail("FriProof::read_from left bytes of an honest proof unread".to_string());
     }
+    if tamper.is_none() {
+        // channel contract: the commitments the verifier reads are exactly the ones it was constructed with - none is
+        // derived from the proof - and a list without the remainder commitment is refused
+        use winter_fri::VerifierChannel;
+        match DefaultVerifierChannel::<E, H>::new(proof.clone(), commitments.clone(), domain_size, options.folding_factor()) {
+            Ok(mut c) => {
+                if c.read_fri_layer_commitments() != commitments {
+                    fail("DefaultVerifierChannel hands out commitments other than the ones it was given".to_string());
+                }
+            },
+            Err(e) => fail(format!("DefaultVerifierChannel::new refuses an honest proof: {e}")),
+        }
+        let mut short = commitments.clone();
+        short.pop();
+        if DefaultVerifierChannel::<E, H>::new(proof.clone(), short, domain_size, options.folding_factor()).is_ok() {
+            fail(format!(
+                "DefaultVerifierChannel::new accepts a commitment list without the remainder commitment ({} commitments)",
+                commitments.len() - 1
+            ));
+        }
+    }
     let mut vchannel = match DefaultVerifierChannel::<E, H>::new(proof, commitments, domain_size, options.folding_factor()) {
         Ok(c) => c,
         Err(_) => return Err(VerifierError::InvalidRemainderFolding),
@@ -358,6 +379,103 @@ fn large_layers(cases: &mut u64, rng: &mut Rng) {
     let _ = core::marker::PhantomData::<CubeExtension<f64::BaseElement>>;
 }
 
+/// layer trees built from several partitions (a layout only distributed provers produce; FriProver always announces one):
+/// a one-layer proof assembled in the wire format for 1, 2 and 4 partitions. The honest one - rows holding f(x), f(-x)
+/// of a polynomial within the bound, stored at the slots map_positions_to_indexes assigns - is accepted; one whose rows
+/// were computed with the x-coordinate of the Merkle SLOT instead of the position (a function far above the bound when
+/// slot != position) is refused: the folding step is checked at the x-coordinates of the queried positions.
+fn partitioned_layout(cases: &mut u64, rng: &mut Rng) {
+    use crypto::{ElementHasher, MerkleTree};
+    use utils::ByteWriter;
+    use winter_fri::{folding::fold_positions, utils::map_positions_to_indexes};
+    type B = f128::BaseElement;
+    type H = Blake3_256<B>;
+    const MAX_DEGREE: usize = 7;
+    const BLOWUP: usize = 8;
+    const DOMAIN: usize = (MAX_DEGREE + 1) * BLOWUP;
+    const ROWS: usize = DOMAIN / 2;
+    for log_partitions in 0..=2u8 {
+        for distorted in [false, true] {
+            if distorted && log_partitions == 0 {
+                continue; // slot == position: the distorted construction is the honest one
+            }
+            let options = FriOptions::new(BLOWUP, 2, 3);
+            let num_partitions = 1usize << log_partitions;
+            let offset: B = options.domain_offset();
+            let g = B::get_root_of_unity(DOMAIN.ilog2());
+            let g2 = g * g;
+            let all_rows: Vec<usize> = (0..ROWS).collect();
+            let slots = map_positions_to_indexes(&all_rows, DOMAIN, 2, num_partitions);
+            let le: Vec<B> = (0..4).map(|_| B::from((rng.next() >> 33) as u32)).collect();
+            let lo: Vec<B> = (0..4).map(|_| B::from(((rng.next() >> 33) as u32) | 1)).collect();
+            let mut evals = vec![B::ZERO; DOMAIN];
+            let mut rows = vec![[B::ZERO; 2]; ROWS];
+            for j in 0..ROWS {
+                let y = offset * g2.exp((j as u64).into());
+                let (e, o) = (math::polynom::eval(&le, y), math::polynom::eval(&lo, y));
+                let at = if distorted { slots[j] } else { j };
+                let x = offset * g.exp((at as u64).into());
+                rows[j] = [e + x * o, e - x * o];
+                evals[j] = rows[j][0];
+                evals[j + ROWS] = rows[j][1];
+            }
+            let mut leaves = vec![<H as Hasher>::Digest::default(); ROWS];
+            for j in 0..ROWS {
+                leaves[slots[j]] = H::hash_elements(&rows[j]);
+            }
+            let tree = MerkleTree::<H>::new(leaves).unwrap();
+            let root = *tree.root();
+            let mut coin = DefaultRandomCoin::<H>::new(&[]);
+            coin.reseed(root);
+            let alpha: B = coin.draw().unwrap();
+            let remainder: Vec<B> = le.iter().zip(lo.iter()).map(|(&e, &o)| e + alpha * o).collect();
+            let remainder_commitment = H::hash_elements(&remainder);
+            coin.reseed(remainder_commitment);
+            let _: B = coin.draw().unwrap();
+            let mut positions = coin.draw_integers(12, DOMAIN, 0).unwrap();
+            positions.sort_unstable();
+            positions.dedup();
+            let folded = fold_positions(&positions, DOMAIN, 2);
+            let indexes = map_positions_to_indexes(&folded, DOMAIN, 2, num_partitions);
+            let opening = tree.prove_batch(&indexes).unwrap();
+            let mut values: Vec<u8> = Vec::new();
+            for &j in folded.iter() {
+                values.write_many(&rows[j]);
+            }
+            let paths = opening.serialize_nodes();
+            let mut remainder_bytes: Vec<u8> = Vec::new();
+            remainder_bytes.write_many(&remainder);
+            let mut bytes: Vec<u8> = Vec::new();
+            bytes.write_u8(1);
+            bytes.write_u32(values.len() as u32);
+            bytes.write_bytes(&values);
+            bytes.write_u32(paths.len() as u32);
+            bytes.write_bytes(&paths);
+            bytes.write_u16(remainder_bytes.len() as u16);
+            bytes.write_bytes(&remainder_bytes);
+            bytes.write_u8(log_partitions);
+            let proof = FriProof::read_from_bytes(&bytes).unwrap();
+            *cases += 1;
+            let r = catch_unwind(AssertUnwindSafe(|| {
+                let mut channel = DefaultVerifierChannel::<B, H>::new(proof, vec![root, remainder_commitment], DOMAIN, 2)
+                    .map_err(|_| VerifierError::InvalidRemainderFolding)?;
+                let mut vcoin = DefaultRandomCoin::<H>::new(&[]);
+                let verifier = FriVerifier::new(&mut channel, &mut vcoin, options.clone(), MAX_DEGREE)?;
+                let queried: Vec<B> = positions.iter().map(|&p| evals[p]).collect();
+                verifier.verify(&mut channel, &queried, &positions)
+            }));
+            match (distorted, r) {
+                (false, Ok(Ok(()))) | (true, Ok(Err(_))) => {},
+                (false, Ok(Err(e))) => fail(format!("honest one-layer FRI proof with {num_partitions} partition(s) rejected ({e})")),
+                (true, Ok(Ok(()))) => fail(format!(
+                    "a function far above the degree bound, folded at the x-coordinates of the Merkle slots, is accepted with {num_partitions} partitions"
+                )),
+                (_, Err(_)) => fail(format!("FRI verifier panicked on a proof with {num_partitions} partitions")),
+            }
+        }
+    }
+}
+
 #[test]
 fn fri_end_to_end_bounded() {
     let mut rng = Rng(0xA0761D6478BD642F ^ seed().wrapping_mul(0xE7037ED1A0B428DB) | 1);
@@ -368,6 +486,7 @@ fn fri_end_to_end_bounded() {
     grid::<f64::BaseElement, math::fields::QuadExtension<f64::BaseElement>, Blake3_256<f64::BaseElement>>("f64 quadratic", false, &mut rng, &mut cases);
     grid::<f64::BaseElement, math::fields::CubeExtension<f64::BaseElement>, Blake3_256<f64::BaseElement>>("f64 cubic", false, &mut rng, &mut cases);
     large_layers(&mut cases, &mut rng);
+    partitioned_layout(&mut cases, &mut rng);
     above_bound::<f128::BaseElement, Blake3_256<f128::BaseElement>>("f128", &mut rng, &mut cases);
     layer_query_contract::<f128::BaseElement, Blake3_256<f128::BaseElement>>("f128", &mut rng, &mut cases);
     layer_query_contract::<f64::BaseElement, Blake3_256<f64::BaseElement>>("f64", &mut rng, &mut cases);
